@@ -12,6 +12,11 @@ A case is a SESSION on one problem: one to three wrapper objects (subjects below
   set_stats    problem.surrogate.eval_stats = b                 (red team round 5: the switch that lets train() skip the score
                statistics; every wrapper also STARTS with eval_stats True or False, assigned after construction.  The model has
                no such field: the event is not handed to the model, counters / schedule / answers must not depend on it)
+  group        (red team round 6) 2..8 requests that OVERLAP in time: each in its own thread (plain threads calling
+               problem.surrogate.evaluate / Job.evaluate, or the joblib workers of Algorithm.evaluate with max_processes = k), the
+               objective is a gate: all of them are inside the objective at the same time and are let out ONE AT A TIME, each request
+               returning completely before the next one is released.  The model sees the group as the sequential history it is
+               (answered requests in order of entry, then the evaluated ones in order of release; pass-through: order of entry)
 optionally preceded by a warm-up segment of the same kind that is run on the real objects only; the
 model run then STARTS FROM THE SNAPSHOT of the real wrappers (counters advanced, training set seeded:
 len(x_data) != eval_counter), not from a fresh wrapper.
@@ -63,6 +68,9 @@ ASSUMPTIONS = [
     "regressor.fit/score do not raise (an exception inside train() propagates out of evaluate after counting and recording; not modelled)",
     "between requests the user only calls read_from_data_store() / train() or assigns train_step / trained / problem.surrogate; "
     "x_data / y_data / the counters are not edited by hand (the per-request theorems hold from every state nevertheless)",
+    "requests that overlap in time (threads sharing problem.surrogate) overlap inside the objective call only: the wrapper's own statements "
+    "before and after it are executed by one thread at a time (the gated groups of the overlap stream, read as the sequential history in "
+    "release order); races between those statements under free-running threads are not modelled",
 ]
 
 HEADER = ("From Artap Require Import Run.C19Run.\nFrom Coq Require Import List ZArith Floats.\nImport ListNotations.\n"
@@ -379,6 +387,147 @@ def gen_session(rng):
             "slots": slots, "warmup": events[:cut], "events": events[cut:]}
 
 
+OVERLAP_STEPS = [-1, -1, 1, 2, 2, 3, 3, 5, 5, 4, 7]
+OVERLAP_MODES = ["threads", "threads", "threads", "threads", "job_threads", "job_threads", "joblib", "joblib", "joblib"]
+
+
+def overlap_consistent(case):
+    """Generator aid for the overlap stream (not an oracle).  A gated group is read as a sequential history: the requests that were
+    answered by a prediction when they entered, then the evaluated ones in the order of their release.  The two coincide when the
+    decision taken at entry (hook consulted or not) is the one the sequential history takes, i.e. when `trained` is the same at every
+    release as it was when the group entered, or the problem has no hook.  This walks through the case with the bookkeeping of the
+    property text and says whether that is so; in a joblib group (free-running workers before the gate) no request may be answered
+    by a prediction: the hook answers of such a group are turned into declines where they would be used."""
+    slots = [{"subject": sl["subject"], "trained": True if sl["subject"] == "eval" else sl["trained0"], "ec": 0, "ts": sl["train_step"],
+              "script": sl["train_script"], "n": 0} for sl in case["slots"]]
+    cur = case["cur"]
+    hook = case["has_hook"]
+
+    def train(w):
+        if w["subject"] == "scikit":
+            w["trained"] = True
+        elif w["subject"] == "scripted":
+            w["trained"] = w["script"][w["n"]] if w["n"] < len(w["script"]) else True
+            w["n"] += 1
+
+    def evaluated(w):
+        w["ec"] += 1
+        if w["subject"] != "eval" and w["ts"] != -1 and w["ec"] % w["ts"] == 0:
+            train(w)
+
+    def request(w, r):
+        if w["subject"] == "eval" or not (w["trained"] and hook and r[2] is not None):
+            evaluated(w)
+
+    ok = True
+    for pos, ev in enumerate(case["warmup"] + case["events"]):
+        if pos == len(case["warmup"]):
+            for w in slots:
+                w["n"] = 0                       # the recorders (and with them the position in the train() script) start anew
+        w = slots[cur]
+        k = ev[0]
+        if k == "req":
+            request(w, ev)
+        elif k == "train":
+            train(w)
+        elif k == "set_step":
+            if w["subject"] != "eval":
+                w["ts"] = ev[1]
+        elif k == "set_trained":
+            w["trained"] = ev[1]
+        elif k == "use":
+            cur = ev[1]
+        elif k == "group":
+            if w["subject"] == "eval":
+                w["ec"] += len(ev[1]["reqs"])
+                continue
+            t0 = w["trained"]
+            if ev[1]["mode"] == "joblib" and t0 and hook:
+                for r in ev[1]["reqs"]:
+                    r[2] = None
+            for j in ev[1]["release"]:
+                r = ev[1]["reqs"][j]
+                if t0 and hook and r[2] is not None:
+                    continue                     # answered at entry
+                if hook and w["trained"] != t0:
+                    ok = False
+                evaluated(w)
+    return ok
+
+
+def gen_overlap(rng):
+    """Requests that overlap in time (red team round 6): sequential history, a group of 2..8 requests that are inside the objective at
+    the same time and are let out one by one, more sequential history, up to three groups; see Group in run()."""
+    case = None
+    for _ in range(40):
+        case = gen_overlap_once(rng)
+        if overlap_consistent(case):
+            return case
+    case["has_hook"] = False
+    overlap_consistent(case)
+    return case
+
+
+def gen_overlap_once(rng):
+    n_slots = rng.choice([1, 1, 1, 2])
+    subjects = [rng.choice(["scikit", "scikit", "scripted", "scripted", "scripted", "eval"]) for _ in range(n_slots)]
+    dim = rng.choice([1, 1, 2])
+    m = rng.choice([1, 1, 2])
+    p_accept = rng.choice([0.0, 0.0, 0.3, 0.6, 1.0])
+    kind = rng.choice(["true", "true", "false", "blocks"])
+    slots = []
+    for sub in subjects:
+        sl = gen_slot(rng, sub, rng.choice(OVERLAP_STEPS), rng.random() < 0.5, 10, 1.0)
+        sl["train_script"] = [True] * 150 if kind == "true" else [False] * 150 if kind == "false" else [(j // 4) % 2 == 0 for j in range(150)]
+        sl["scores"] = [rng.choice(SCORES) for _ in range(150)]
+        slots.append(sl)
+    cur = rng.randrange(n_slots)
+    c = cur
+    events, last_seed = [], []
+
+    def filler(n):
+        nonlocal c, last_seed
+        for r in gen_requests(rng, n, dim, m, p_accept, p_pres=rng.choice([0.0, 0.0, 0.5]), via_ok=True):
+            if rng.random() < 0.15:
+                u = rng.random()
+                if u < 0.2:
+                    last_seed = gen_seed(rng, dim, m, last_seed)
+                    events.append(["seed", last_seed])
+                elif u < 0.4:
+                    events.append(["train"])
+                elif u < 0.6 and subjects[c] != "eval":
+                    events.append(["set_step", rng.choice(OVERLAP_STEPS)])
+                elif u < 0.7:
+                    events.append(["set_trained", rng.random() < 0.6])
+                elif u < 0.8:
+                    events.append(["set_stats", rng.random() < 0.4])
+                elif n_slots > 1:
+                    c = 1 - c
+                    events.append(["use", c])
+            events.append(r)
+
+    filler(rng.choice([0, 0, 1, 2, 3, 5, 8, 13]))
+    for gi in range(rng.choice([1, 1, 1, 2, 2, 3])):
+        k = rng.randint(2, 8)
+        mode = rng.choice(OVERLAP_MODES)
+        if subjects[c] == "eval" and mode == "joblib":
+            mode = "threads"                     # the pass-through wrapper counts BEFORE the gate: only with an ordered entry
+        reqs = gen_requests(rng, k, dim, m, p_accept)
+        for i, r in enumerate(reqs):
+            r[3] = [100.0 * (gi + 1) + i] + [rng.choice(CGRID) for _ in range(m - 1)]
+        release = list(range(k))
+        u = rng.random()
+        if u < 0.5:
+            rng.shuffle(release)
+        elif u < 0.7:
+            release.reverse()
+        events.append(["group", {"mode": mode, "reqs": reqs, "release": release}])
+        filler(rng.choice([0, 1, 2, 3, 5, 8]))
+    cut = rng.randint(1, len(events) - 1) if len(events) > 1 and rng.random() < 0.3 else 0
+    return {"stream": "overlap", "has_hook": rng.random() < 0.8, "via_job": False, "cur": cur, "slots": slots,
+            "warmup": events[:cut], "events": events[cut:]}
+
+
 def run(ctx):
     from artap.problem import Problem
     from artap.individual import Individual
@@ -397,9 +546,12 @@ def run(ctx):
             self.parameters = [{'name': 'x%d' % i, 'initial_value': 0.0, 'bounds': [-10, 10]} for i in range(3)]
             self.costs = [{'name': 'F1'}, {'name': 'F2'}]
             self.current = None
+            self.group = None
             self.n_obj = 0
 
         def evaluate(self, individual):
+            if self.group is not None:
+                return self.group.objective(individual)
             s = self.surrogate
             self.n_obj += 1
             s.rec.obj.append((list(individual.vector), len(s.x_data), s.eval_counter))
@@ -407,6 +559,8 @@ def run(ctx):
 
     class HookProblem(BaseProblem):
         def predict(self, individual):
+            if self.group is not None:
+                return self.group.hook(individual)
             s = self.surrogate
             s.rec.hook.append((list(individual.vector), s.eval_counter, s.predict_counter))
             h = build_answer(self.current[2])
@@ -448,7 +602,86 @@ def run(ctx):
             self.trained = self.script[len(rec.tape)] if len(rec.tape) < len(self.script) else True
             rec.tape.append(bool(self.trained))
 
+    class Group:
+        """Requests that OVERLAP in time (red team round 6): every request of the group runs in its own thread (plain threads or the
+        worker threads of artap's own Evaluator.evaluate_parallel), the objective is a gate: a request that reaches the objective
+        blocks there until the scheduler (the harness thread) releases it, and the scheduler releases ONE request at a time and waits
+        until it has returned completely.  Nothing is left to thread timing: before the gate the requests enter one after the other
+        (plain threads) or only read (joblib workers: groups without predictions), after the gate one request runs alone."""
+        def __init__(self, problem, reqs, inds):
+            self.problem, self.reqs, self.inds = problem, reqs, inds
+            self.cv = threading.Condition()
+            self.index = {id(ind): i for i, ind in enumerate(inds)}
+            k = len(reqs)
+            self.phase = ["new"] * k                  # new -> blocked -> running -> done   /   new -> done (no objective call)
+            self.released = [False] * k
+            self.obj_calls, self.hook_calls = [0] * k, [0] * k
+            self.pending_hook = [False] * k
+            self.hook_answer, self.true_obj = [None] * k, [None] * k
+            self.timed_out = False
+
+        def wait_for(self, pred):
+            with self.cv:
+                if not self.cv.wait_for(pred, GATE_TIMEOUT):
+                    self.timed_out = True
+                    return False
+            return True
+
+        def open_all(self):
+            with self.cv:
+                self.released = [True] * len(self.released)
+                self.cv.notify_all()
+
+        def done(self, i):
+            with self.cv:
+                self.phase[i] = "done"
+                self.cv.notify_all()
+
+        def hook(self, individual):
+            i = self.index[id(individual)]
+            s = self.problem.surrogate
+            self.hook_calls[i] += 1
+            h = build_answer(self.reqs[i][2])
+            if h is None:
+                self.pending_hook[i] = True          # logged when the request is released: the history is read in release order
+            else:
+                s.rec.hook.append((list(individual.vector), s.eval_counter, s.predict_counter))
+                s.rec.answers.append(h)
+                self.hook_answer[i] = h
+            return h
+
+        def objective(self, individual):
+            i = self.index[id(individual)]
+            p = self.problem
+            s = p.surrogate
+            vec = list(individual.vector)
+            with self.cv:
+                self.obj_calls[i] += 1
+                p.n_obj += 1
+                if s.c19_subject == "eval":          # the pass-through wrapper counts before the call: history in order of entry
+                    s.rec.obj.append((vec, len(s.x_data), s.eval_counter))
+                self.phase[i] = "blocked"
+                self.cv.notify_all()
+                if not self.cv.wait_for(lambda: self.released[i], GATE_TIMEOUT):
+                    self.timed_out = True
+                # from here to the end of the request this thread is the only one that runs
+                if self.pending_hook[i]:
+                    self.pending_hook[i] = False
+                    s.rec.hook.append((vec, s.eval_counter, s.predict_counter))
+                    s.rec.answers.append(None)
+                if s.c19_subject != "eval":
+                    s.rec.obj.append((vec, len(s.x_data), s.eval_counter))
+                self.phase[i] = "running"
+            v = build_answer(self.reqs[i][3])
+            self.true_obj[i] = v
+            return v
+
     import logging
+    import threading
+    import contextlib
+    import io
+    from artap.algorithm import DummyAlgorithm
+    GATE_TIMEOUT = 1800.0                            # the machine may be heavily loaded; nothing here depends on how long a step takes
     problems = {True: HookProblem(), False: BaseProblem()}
     for p in problems.values():
         p.logger.setLevel(logging.CRITICAL)
@@ -462,6 +695,9 @@ def run(ctx):
     truekinds = {}
     stats = {k: 0 for k in ("set_stats events", "requests with eval_stats on", "requests with eval_stats off", "true evaluations with eval_stats off",
                             "train() calls with eval_stats off", "wrappers starting with eval_stats off")}
+    ov = {"groups": 0, "requests_in_groups": 0, "predicted_in_groups": 0, "by_mode": {}, "by_size": {}, "by_subject": {}, "by_train_step": {},
+          "requests_inside_the_objective_at_once": {}, "groups_after_n_earlier_requests": {"0": 0, "1-5": 0, "6+": 0},
+          "retrain_decisions_in_groups": 0, "trainings_in_groups": 0}
     sep = {"retrain_decisions": 0, "len_x_data_differs_from_eval_counter": 0, "cases_with_such_a_decision": 0,
            "trains_with_len_x_data_differing": 0,
            "quantity_differs": {k: 0 for k in SEP}, "decision_would_differ": {k: 0 for k in SEP}}
@@ -520,6 +756,204 @@ def run(ctx):
             return (bool(w.trained), w.eval_counter, w.predict_counter, list(w.x_data), [vkey(y) for y in w.y_data],
                     len(w.rec.obj), len(w.rec.hook), len(w.rec.train), len(w.rec.fit))
 
+        flat = []          # the observed part as the model sees it: a group stands as its requests in the order of the sequential history
+
+        def run_group(seg, pos, ev, sur, a, kw, before):
+            """an overlapping group; direct oracle step by step: after the requests have entered, and after every single release"""
+            spec = ev[1]
+            mode, reqs = spec["mode"], spec["reqs"]
+            k = len(reqs)
+            subject, ts, rec = sur.c19_subject, getattr(sur, "train_step", None), sur.rec
+            inds = [Individual(list(r[1])) for r in reqs]
+            g = Group(problem, reqs, inds)
+            results, excs = [None] * k, [None] * k
+            a["requests"] += k
+            ov["groups"] += 1
+            ov["by_mode"][mode] = ov["by_mode"].get(mode, 0) + 1
+            ov["by_size"][str(k)] = ov["by_size"].get(str(k), 0) + 1
+            ov["requests_in_groups"] += k
+            ov["by_subject"][subject] = ov["by_subject"].get(subject, 0) + 1
+            ov["by_train_step"][str(ts)] = ov["by_train_step"].get(str(ts), 0) + 1
+            ov["groups_after_n_earlier_requests"]["0" if a["requests"] == k else "1-5" if a["requests"] - k <= 5 else "6+"] += 1
+            t_b, ec_b, pc_b, x_b, y_b, no_b, nh_b, nt_b, nf_b = before
+
+            def gfail(what, clause, **more):
+                fail("overlapping requests (%s, %d at once): %s" % (mode, k, what), case, pos, clause=clause, **dict(kw, **more))
+
+            def worker(i):
+                try:
+                    if mode == "job_threads":
+                        job.evaluate(inds[i])
+                        results[i] = inds[i].costs
+                    else:
+                        results[i] = problem.surrogate.evaluate(inds[i])
+                except BaseException as e:
+                    excs[i] = e
+                finally:
+                    g.done(i)
+
+            problem.group = g
+            threads, driver, restore, crashed = [], None, None, []
+            entered = True
+            try:
+                if mode == "joblib":
+                    # artap's own parallel evaluation: Algorithm.evaluate with max_processes = k (joblib threads sharing problem.surrogate)
+                    algo = DummyAlgorithm(problem)
+                    algo.options['max_processes'] = k
+                    algo.options['verbose_level'] = 0
+                    store = problem.data_store
+                    orig_sync = store.sync_individual
+
+                    def sync(individual, *args, **kwargs):       # the last statement of Job.evaluate: the request has returned
+                        try:
+                            return orig_sync(individual, *args, **kwargs)
+                        finally:
+                            if id(individual) in g.index:
+                                g.done(g.index[id(individual)])
+                    restore = (store, "sync_individual" in vars(store))
+                    store.sync_individual = sync
+
+                    def drive():
+                        try:
+                            with contextlib.redirect_stderr(io.StringIO()):
+                                algo.evaluate(inds)
+                        except BaseException as e:
+                            crashed.append(e)
+                        finally:
+                            with g.cv:
+                                g.cv.notify_all()
+                    driver = threading.Thread(target=drive, daemon=True)
+                    driver.start()
+                    entered = g.wait_for(lambda: crashed or all(ph in ("blocked", "done") for ph in g.phase))
+                    if crashed:
+                        entered = False
+                else:
+                    for i in range(k):
+                        t = threading.Thread(target=worker, args=(i,), daemon=True)
+                        threads.append(t)
+                        t.start()
+                        if not g.wait_for(lambda: g.phase[i] in ("blocked", "done")):
+                            entered = False
+                            break
+                blocked = [i for i in range(k) if g.phase[i] == "blocked"]
+                early = [i for i in range(k) if g.phase[i] == "done"]
+                ov["requests_inside_the_objective_at_once"][str(len(blocked))] = ov["requests_inside_the_objective_at_once"].get(str(len(blocked)), 0) + 1
+                ov["predicted_in_groups"] += len(early) if subject != "eval" else 0
+                if not entered:
+                    gfail("the requests did not all reach the objective or return (%r)" % (g.phase,), "request did not return")
+                order = []
+                if entered:
+                    # ---- all requests are inside the objective or have returned: what has happened so far
+                    ec, pc = sur.eval_counter, sur.predict_counter
+                    if subject == "eval":
+                        if ec != ec_b + k or pc != pc_b:
+                            gfail("pass-through: %d requests have entered the objective, eval_counter %d->%d predict_counter %d->%d" % (k, ec_b, ec, pc_b, pc),
+                                  "passthrough counter")
+                        if early:
+                            gfail("pass-through: %d requests returned without calling the objective" % len(early), "passthrough objective calls")
+                    else:
+                        for i in early:
+                            h = reqs[i][2]
+                            if g.obj_calls[i]:
+                                continue
+                            if not t_b:
+                                gfail("prediction used while the model is not trained (returned %r)" % (results[i],), "prediction while untrained")
+                            elif not case["has_hook"] or h is None:
+                                gfail("objective not evaluated although the hook gave no value (returned %r)" % (results[i],), "no value and no evaluation")
+                            elif excs[i] is None and vkey(results[i]) != vkey(g.hook_answer[i]):
+                                gfail("prediction returned %r, hook answered %r" % (results[i], g.hook_answer[i]), "prediction value")
+                        if ec != ec_b or pc != pc_b + len(early):
+                            gfail("%d requests answered by a prediction, %d waiting inside the objective: eval %d->%d predict %d->%d"
+                                  % (len(early), len(blocked), ec_b, ec, pc_b, pc), "prediction counter")
+                        if sur.x_data != x_b or ykeys(sur.y_data) != y_b:
+                            gfail("training data changed before any objective call has returned", "prediction touches data")
+                        if len(rec.train) != nt_b:
+                            gfail("train() called before any objective call has returned", "train on prediction")
+                    # ---- release one request at a time, each returns completely before the next one is released
+                    n_eval = 0
+                    for i in [j for j in spec["release"] if j in blocked] + [j for j in blocked if j not in spec["release"]]:
+                        ec0, pc0, nt0, nf0 = sur.eval_counter, sur.predict_counter, len(rec.train), len(rec.fit)
+                        x0, y0 = list(sur.x_data), ykeys(sur.y_data)
+                        with g.cv:
+                            g.released[i] = True
+                            g.cv.notify_all()
+                        if not g.wait_for(lambda: g.phase[i] == "done" or crashed) or g.phase[i] != "done":
+                            gfail("released request %d did not return" % i, "request did not return")
+                            break
+                        order.append(i)
+                        n_eval += 1
+                        vec, true_obj = reqs[i][1], g.true_obj[i]
+                        res = inds[i].costs if mode == "joblib" else results[i]
+                        ec, pc = sur.eval_counter, sur.predict_counter
+                        if subject == "eval":
+                            if (ec, pc) != (ec0, pc0) or sur.x_data != x0 or ykeys(sur.y_data) != y0:
+                                gfail("pass-through: a returning request changed counters or data: eval %d->%d" % (ec0, ec), "passthrough counter")
+                            if excs[i] is None and dkey(res) != dkey(true_obj):
+                                gfail("pass-through: returned %r, true objective value %r" % (res, true_obj), "passthrough value")
+                            continue
+                        if excs[i] is None and dkey(res) != dkey(true_obj):
+                            gfail("true evaluation returned %r, objective value %r" % (res, true_obj), "value changed")
+                        if ec != ec0 + 1 or pc != pc0:
+                            gfail("true evaluation number %d of the wrapper (the %d. of %d requests that were inside the objective at the same time, the only one "
+                                  "running now) not counted exactly once: eval %d->%d predict %d->%d" % (ec_b + n_eval, n_eval, len(blocked), ec0, ec, pc0, pc),
+                                  "evaluation counter", counters_before_group={"eval": ec_b, "predict": pc_b})
+                        if sur.x_data != x0 + [vec] or ykeys(sur.y_data) != y0 + [vkey(true_obj)]:
+                            gfail("(vector, value) not appended exactly once at the end: |x| %d->%d |y| %d->%d" % (len(x0), len(sur.x_data), len(y0), len(sur.y_data)),
+                                  "training data append")
+                        elif dkey(sur.y_data[-1]) != dkey(true_obj):
+                            gfail("the value appended to the training set is %r, the objective value is %r" % (sur.y_data[-1], true_obj), "training value changed")
+                        if ts == -1 or (type(ts) is int and ts > 0):
+                            number = ec_b + n_eval                     # true evaluations of this wrapper so far (eval_counter was exact before the group)
+                            due = ts != -1 and number % ts == 0
+                            n_train = len(rec.train) - nt0
+                            ov["retrain_decisions_in_groups"] += ts != -1
+                            ov["trainings_in_groups"] += n_train
+                            if n_train != (1 if due else 0):
+                                gfail("train() called %d times at true evaluation number %d (eval_counter %d, training set size %d) with train_step %d (required %d)"
+                                      % (n_train, number, ec, len(sur.x_data), ts, 1 if due else 0), "retrain schedule")
+                            elif due and subject == "scikit":
+                                if len(rec.fit) - nf0 != 1 or rec.fit[-1][1] != sur.x_data or ykeys(rec.fit[-1][2]) != ykeys(sur.y_data):
+                                    gfail("train() did not fit the regressor once on the current training set", "fit data")
+                            if n_train:
+                                a["ec_last_train"] = ec
+                        a["want_x"].append(vec)
+                        a["want_y"].append(vkey(true_obj))
+            finally:
+                g.open_all()
+                for t in threads:
+                    t.join(GATE_TIMEOUT)
+                if driver is not None:
+                    driver.join(GATE_TIMEOUT)
+                if restore is not None:
+                    if restore[1]:
+                        restore[0].sync_individual = orig_sync
+                    else:
+                        del restore[0].sync_individual
+                problem.group = None
+            if g.timed_out:
+                gfail("a gate timed out", "request did not return")
+            ec, pc = sur.eval_counter, sur.predict_counter
+            for i in range(k):
+                if g.obj_calls[i] > 1 or (subject == "eval" and g.obj_calls[i] != 1):
+                    gfail("objective called %d times for request %d" % (g.obj_calls[i], i), "objective calls")
+                if excs[i] is not None:
+                    gfail("request %d raised %r" % (i, excs[i]), "unexpected exception")
+            if crashed:
+                gfail("Algorithm.evaluate raised %r" % (crashed[0],), "unexpected exception")
+            if (ec + pc) - (ec_b + pc_b) != k:
+                gfail("counters do not add up: eval %d->%d, predict %d->%d for %d requests" % (ec_b, ec, pc_b, pc, k), "counters_add_up")
+            if subject != "eval" and ec - ec_b != len(order):
+                gfail("%d true evaluations (each request released only after the one before had returned), eval_counter %d->%d, training set %d->%d pairs"
+                      % (len(order), ec_b, ec, len(x_b), len(sur.x_data)), "evaluation counter")
+            # the sequential history this gated history is: pass-through in order of entry; predicting: the answered requests, then the
+            # evaluated ones in the order of their release
+            seq = list(range(k)) if subject == "eval" else [i for i in early if i not in order] + order
+            seq += [i for i in range(k) if i not in seq]
+            if seg == "main":
+                for i in seq:
+                    flat.append(reqs[i])
+                    rets.append(None if excs[i] is not None else (inds[i].costs if mode == "joblib" else results[i]))
+
         def run_events(seg, events):
             for i, ev in enumerate(events):
                 pos = (seg, i)
@@ -534,6 +968,14 @@ def run(ctx):
                 others = [(j, state_of(w)) for j, w in enumerate(wrappers) if w is not sur]
                 kind = ev[0]
                 ret = exc = None
+                if kind == "group":
+                    run_group(seg, pos, ev, sur, a, kw, before)
+                    for j, st in others:
+                        if state_of(wrappers[j]) != st:
+                            fail("event %r changed wrapper %d, which is not problem.surrogate" % (kind, j), case, pos, clause="other wrapper touched", **kw)
+                    continue
+                if seg == "main":
+                    flat.append(ev)
                 if kind == "req":
                     vec, hook, true = ev[1:4]
                     opts = ev[4] if len(ev) > 4 else {}
@@ -720,7 +1162,7 @@ def run(ctx):
                   "train_step": getattr(w, "train_step", -1), "x_data": list(w.x_data), "y_data": list(w.y_data),
                   "train_log": list(w.rec.train), "obj_log": list(w.rec.obj), "hook_log": list(w.rec.hook), "tape": list(w.rec.tape)}
                  for w in wrappers]
-        return {"returned": rets, "cur0": cur0, "cur": next(j for j, w in enumerate(wrappers) if w is problem.surrogate),
+        return {"returned": rets, "flat": flat, "cur0": cur0, "cur": next(j for j, w in enumerate(wrappers) if w is problem.surrogate),
                 "snapshot": snap, "final": final}
 
     def enc_event(ev):
@@ -743,7 +1185,7 @@ def run(ctx):
             ll(sn["x_data"], enc_vec), ll(sn["y_data"], enc_vec), ll(fin["tape"], bl))
             for sl, sn, fin in zip(case["slots"], obs["snapshot"], obs["final"])]
         c = "{| c9_hook := %s; c9_cur := %s; c9_slots := [%s]; c9_events := %s |}" % (
-            bl(case["has_hook"]), nl(obs["cur0"]), "; ".join(slots), ll([e for e in case["events"] if e[0] != "set_stats"], enc_event))
+            bl(case["has_hook"]), nl(obs["cur0"]), "; ".join(slots), ll([e for e in obs["flat"] if e[0] != "set_stats"], enc_event))
         e = pl(ll(obs["returned"], lambda v: optl(v, enc_vec)), nl(obs["cur"]),
                ll(obs["final"], lambda f: pl(pl(bl(f["trained"]), nl(f["eval_counter"]), nl(f["predict_counter"])), zl(f["train_step"]),
                                              ll(f["x_data"], enc_vec), ll(f["y_data"], enc_vec),
@@ -956,15 +1398,51 @@ def run(ctx):
                plain("scikit", 4, warmup=[doe(3), S(False)] + mix(3), events=mix(9) + [S(True)] + mix(3)),
                plain(slots=[slot("eval", -1, stats0=False), slot("scikit", 2, stats0=True), slot("scripted", 3, stats0=False)],
                      events=mix(3) + [["use", 1]] + mix(5) + [S(False)] + mix(4) + [["use", 2]] + mix(7) + [["use", 0], S(True)] + mix(2) + [["use", 1]] + mix(3))]
+    # red team round 6: requests that overlap in time (threads sharing problem.surrogate, as Evaluator.evaluate_parallel does): three
+    # sequential requests, k requests inside the objective at the same time and let out one by one, two sequential requests
+    def G(mode, reqs, release=None):
+        return ["group", {"mode": mode, "reqs": reqs, "release": list(release) if release is not None else list(range(len(reqs)))}]
+    seq3, seq2 = [R(11, None, 121), R(12, None, 144), R(13, None, 169)], [R(14, None, 196), R(15, None, 225)]
+    grp = lambda n, h=None: [R(i, h if i % 2 else None, i * i + 0.5) for i in range(1, n + 1)]
+    overlap_corpus = [
+        plain("scripted", -1, events=seq3 + [G("threads", grp(2))] + seq2),
+        plain("scikit", 2, events=seq3 + [G("threads", grp(2))] + seq2),
+        plain("scripted", 5, events=seq3 + [G("threads", grp(8))] + seq2, train_script=[False] * 70),
+        plain("scikit", 5, events=seq3 + [G("threads", grp(8), release=[7, 6, 5, 4, 3, 2, 1, 0])] + seq2, trained0=True),
+        plain("scikit", 3, events=seq3 + [G("threads", grp(6, 7), release=[3, 1, 5, 0, 2, 4])] + seq2, trained0=True),
+        plain("scripted", 1, events=[G("threads", grp(4))] + seq2, train_script=[False] * 70),
+        plain("scikit", 2, events=[G("job_threads", grp(5))] + seq2 + [G("job_threads", grp(3)), G("threads", grp(2))], trained0=True),
+        plain("scikit", 3, events=seq3 + [G("joblib", grp(4))] + seq2, has_hook=False),
+        plain("scripted", 2, events=seq3 + [G("joblib", grp(8), release=[1, 0, 3, 2, 5, 4, 7, 6])] + seq2, trained0=True),
+        plain("scikit", -1, events=[G("joblib", grp(3))] + seq2),
+        plain("scikit", 5, events=[doe(3)] + seq2 + [G("threads", grp(7))] + seq3, trained0=True),
+        plain("scikit", 3, warmup=[doe(2)] + seq2 + [G("threads", grp(3))], events=seq3 + [G("joblib", grp(5))], trained0=True),
+        plain("eval", 1, events=seq3 + [G("threads", grp(4), release=[2, 0, 3, 1])] + seq2),
+        plain("eval", 1, events=[G("job_threads", grp(8))] + seq2),
+        plain(slots=[slot("eval", -1), slot("scikit", 2, trained0=True)],
+              events=seq3 + [G("threads", grp(3)), ["use", 1], G("threads", grp(4, 7)), ["set_step", 3], G("joblib", grp(3)), ["use", 0], G("threads", grp(2))]),
+    ]
+    for case in overlap_corpus:
+        case["stream"] = "overlap corpus"
+        if not overlap_consistent(case) and case["has_hook"]:
+            raise RuntimeError("harness/c19.py: overlap corpus case is not a sequential history: %r" % (case["events"],))
+    corpus += overlap_corpus
     for case in corpus:
         add(case)
+    for k in range(ctx.pick(110, 2000)):
+        add(gen_overlap(rng))
     for k in range(n_plain):
         add(gen_plain(rng))
     for k in range(n_session):
         add(gen_session(rng))
 
     ctx.coq_compare("c19", HEADER, "c19_case", "c19_obs", "c19_run", "c19_obs_eqb", cases, expected, meta, shard=ctx.pick(50, 200))
-    ctx.rule = ("two streams plus a corpus. plain: request sequences of length 1..60 on one fresh wrapper (three subjects, train_step from %r, "
+    ctx.rule = ("three streams plus a corpus. overlap: sequential histories (requests, read_from_data_store(), train(), train_step / trained / "
+                "problem.surrogate assignments; 0..13 requests before, 0..8 between / after) with 1..3 groups of 2..8 requests that overlap in time: "
+                "plain threads on problem.surrogate.evaluate or Job.evaluate, or Algorithm.evaluate with max_processes = k (joblib threads); the objective is a "
+                "gate, all requests of a group are inside it at once and are released one at a time in a drawn order, each returning completely before "
+                "the next release (train_step from [-1, 1, 2, 3, 4, 5, 7], hooks answering / declining / absent, trained / untrained, all three subjects; "
+                "joblib groups only of requests that reach the objective); the model runs the group as the sequential history in release order. plain: request sequences of length 1..60 on one fresh wrapper (three subjects, train_step from %r, "
                 "hook present/absent, accept probability 0/0.3/0.5/0.8/1, hook answers as lists of floats and - in half of the cases, 30%% or 70%% of the "
                 "answers - as Python / numpy scalars, tuples, 0-d / 1-d / (1,n) / (n,1) numpy arrays, lists of numpy scalars or ints, with zeros / "
                 "empty (falsy), NaN, infinities and huge values inside (the returned object is compared by type, shape and bit pattern), "
@@ -976,7 +1454,7 @@ def run(ctx):
                 "assigned again in the middle of half of the plain streams and of the sessions (the model has no such field). A case is non-trivial when it has more than one event; distinct = distinct "
                 "(stream, hook, length, per wrapper: subject, starting and final train_step / eval_counter / training-set size, "
                 "predict_counter, train-call counters)") % (sorted(set(TRAIN_STEPS)), sorted(set(SESSION_STEPS)))
-    ctx.extra.update({"eval_stats_switch": stats, "individual_objects_presented_to_the_wrapper": pres, "objective_value_kinds": truekinds, "distribution": hist, "look_alike_quantities_at_retrain_decisions": sep})
+    ctx.extra.update({"overlapping_requests": ov, "eval_stats_switch": stats, "individual_objects_presented_to_the_wrapper": pres, "objective_value_kinds": truekinds, "distribution": hist, "look_alike_quantities_at_retrain_decisions": sep})
 
 
 LEVEL_TEXT = ("Machine-checked Coq theorems over a state-machine model of SurrogateModelEval.evaluate, SurrogateModelPredict.evaluate / "
